@@ -18,6 +18,34 @@ def design_level(ctx) -> None:
     ctx.add_tlc(rs, f"MC_C04 bus laws, offsets={offs}")
 
 
+def apalache_adjunct(ctx) -> None:
+    """Adjunct, not relied upon: the advance law for ARBITRARY single ROM declarations, all 2^24 addresses and all
+    increments up to 0x20000, discharged symbolically by Apalache on spec/apalache/BusApa.tla."""
+    import shutil
+    import subprocess
+    import time
+    from harness.core import OUT, VERIF
+    if not shutil.which("apalache-mc"):
+        ctx.note("apalache-mc not found: symbolic adjunct skipped")
+        return
+    out = OUT / "apalache"
+    shutil.rmtree(out, ignore_errors=True)
+    t0 = time.time()
+    try:
+        p = subprocess.run(["apalache-mc", "check", "--length=0", "--inv=Law", f"--out-dir={out}", "BusApa.tla"],
+                           cwd=VERIF / "spec" / "apalache", capture_output=True, text=True, timeout=600)
+    except subprocess.TimeoutExpired:
+        ctx.note("apalache adjunct timed out (skipped)")
+        return
+    ok = "The outcome is: NoError" in p.stdout
+    ctx.extra["apalache_adjunct"] = {"module": "spec/apalache/BusApa.tla", "invariant": "Law", "outcome": "NoError" if ok else "see log",
+                                     "wall_s": round(time.time() - t0, 1)}
+    shutil.rmtree(out, ignore_errors=True)
+    if not ok:
+        raise tlc.TLCFailure("Apalache refuted BusApa!Law (the specification's own advance law): " + p.stdout[-500:])
+    ctx.note("Apalache: advance law holds for arbitrary single ROM declarations, all addresses, increments <= 0x20000 (symbolic)")
+
+
 def collect(ctx) -> list[dict]:
     pool = Pool()
     recs: list[dict] = []
@@ -107,6 +135,7 @@ def run(ctx) -> None:
     ctx.assumptions = ["ROM-bank addresses outside the bank window and increments leaving the mapped range are "
                        "outside the statement (not judged)", "`.map writable=0` is not generated"]
     design_level(ctx)
+    apalache_adjunct(ctx)
     recs = collect(ctx)
     for r in recs:
         ctx.nontrivial.add((r["busname"], r["t"], r.get("start", r.get("a", 0)) >> 16, key_of(r)))
